@@ -57,7 +57,7 @@ def decision_table(facts, body, start=0, stop=None, limit=512):
                 vals = [v for v, tg in zip(t["vals"], t["targets"]) if tg == nxt]
                 if t["otherwise"] == nxt and not vals:
                     # "otherwise" of a bool switch on [0] is "true"
-                    if t["vals"] == [0]:
+                    if t["vals"] == [0] and t.get("op_ty", "bool") == "bool":
                         val = "true"
                     else:
                         val = "otherwise(not %s)" % ",".join(map(str, t["vals"]))
